@@ -1,8 +1,192 @@
 import AFV.Driver.Proto
+import AFV.Model.Topo
+import AFV.Spec.Topo
 namespace AFV.Driver.C21
-open Lean AFV.Proto
+open Lean AFV.Proto AFV.Topo
 
-/-- Handler for property C21 requests (stub: not implemented yet). -/
-def handle (_req : Json) : Json := err "unimplemented"
+/-!
+Line protocol for C21.  Names are strings.
+
+* expression  = JSON array of postfix tokens: integer → constant, `"+" "-" "*"` binary, `"~"` unary minus,
+                any other string → identifier.  (`["a", 1, "+"]` is `a + 1`.)
+* definition  = `[name, expr]`
+* field       = `[name, "plain"] | [name, "nested"] | [name, "opaque"] | [name, "expr", expr]`
+* component   = `{"attrs": [definition…], "pre": [name…], "fields": [field…]}`
+
+ops
+* `{"op":"eval","spec":[def…],"arch":[def…],"comps":[component…]}`
+    → `{"ok":{"spec":[[name,val]…],"arch":[…],"comps":[{"attrs":[…],"own":[…]}…]}}` (defined names, sorted by name)
+    | `{"error":"cycle","fields":[…]}` | `{"error":"undefined","field":name}`
+* `{"op":"judge", …same…, "vals":{"spec":[[name,val]…],"arch":[…],"comps":[{"attrs":[…],"own":[…]}…]}}`
+    → `{"spec":b,"arch":b,"comps":[[b,b]…]}`   does each scope of the given values satisfy the defining equations
+      (`semHolds`) relative to the enclosing scopes' given values?
+* `{"op":"order","pre":[name…],"fields":[field…]}` → `{"ok":[name…]}` | `{"error":[name…]}`
+* `{"op":"validorder","pre":[…],"fields":[…],"out":[…]}` → `{"valid":b,"cyclic":b}` (`cyclic` = the model's order fails)
+-/
+
+abbrev N := String
+
+private def leS (a b : N) : Bool := !(decide (b < a))
+
+/-- postfix tokens → expression -/
+private def parseExpr (j : Json) : Option (Expr N) := do
+  let toks ← getArr? j
+  let step (st : Option (List (Expr N))) (tok : Json) : Option (List (Expr N)) := do
+    let stack ← st
+    match tok with
+    | .num _ => do
+      let n ← getInt? tok
+      pure (Expr.num n :: stack)
+    | .str "+" => match stack with
+      | b :: a :: r => some (Expr.add a b :: r)
+      | _ => none
+    | .str "-" => match stack with
+      | b :: a :: r => some (Expr.sub a b :: r)
+      | _ => none
+    | .str "*" => match stack with
+      | b :: a :: r => some (Expr.mul a b :: r)
+      | _ => none
+    | .str "~" => match stack with
+      | a :: r => some (Expr.neg a :: r)
+      | _ => none
+    | .str x => if x.isEmpty then none else some (Expr.var x :: stack)
+    | _ => none
+  match toks.foldl step (some []) with
+  | some [e] => some e
+  | _ => none
+
+private def parseDef (j : Json) : Option (Def N) := do
+  let a ← getArr? j
+  if a.size != 2 then none else
+  let n ← getStr? a[0]!
+  let e ← parseExpr a[1]!
+  pure ⟨n, e⟩
+
+private def parseDefs (j : Json) : Option (List (Def N)) := do
+  let a ← getArr? j
+  a.toList.mapM parseDef
+
+private def parseField (j : Json) : Option (Field N) := do
+  let a ← getArr? j
+  if a.size < 2 then none else
+  let n ← getStr? a[0]!
+  let k ← getStr? a[1]!
+  match k, a.size with
+  | "plain", 2 => some ⟨n, .plain⟩
+  | "nested", 2 => some ⟨n, .nested⟩
+  | "opaque", 2 => some ⟨n, .opaque⟩
+  | "expr", 3 => do
+    let e ← parseExpr a[2]!
+    pure ⟨n, .expr e⟩
+  | _, _ => none
+
+private def parseFields (j : Json) : Option (List (Field N)) := do
+  let a ← getArr? j
+  a.toList.mapM parseField
+
+private def parseComp (j : Json) : Option (Comp N) := do
+  let attrs ← (field? j "attrs").bind parseDefs
+  let pre ← (field? j "pre").bind strList?
+  let fields ← (field? j "fields").bind parseFields
+  pure ⟨attrs, pre, fields⟩
+
+private def parseSpec (j : Json) : Option (Spec3 N) := do
+  let sv ← (field? j "spec").bind parseDefs
+  let av ← (field? j "arch").bind parseDefs
+  let ca ← (field? j "comps").bind getArr?
+  let cs ← ca.toList.mapM parseComp
+  pure ⟨sv, av, cs⟩
+
+private def distinct (l : List N) : Bool := l.eraseDups.length == l.length
+
+/-- the well-formedness the theorems assume (`SpecWF`), decided -/
+private def specWF (s : Spec3 N) : Bool :=
+  distinct (s.specVars.map (·.name)) && distinct (s.archVars.map (·.name)) &&
+  s.comps.all (fun c => distinct (c.attrs.map (·.name)) && distinct (c.fields.map (·.name)) &&
+    c.fields.all (fun f => !(c.pre.contains f.name) || f.expr?.isNone))
+
+private def sortedNames (l : List N) : List N := sortBy leS l
+
+private def valsOf (t : Table N) (ns : List N) : Json :=
+  Json.arr ((sortedNames ns).map (fun n =>
+    Json.arr #[Json.str n, match t.get n with | some v => ofInt v | none => Json.null])).toArray
+
+private def exprNames (fs : List (Field N)) : List N := (fs.filter (fun f => f.expr?.isSome)).map (·.name)
+
+private def errJson : Err N → Json
+  | .cycle stuck => Json.mkObj [("error", Json.str "cycle"), ("fields", ofStrList stuck)]
+  | .undefined x => Json.mkObj [("error", Json.str "undefined"), ("field", Json.str x)]
+
+private def parseVals (j : Json) : Option (Table N) := do
+  let a ← getArr? j
+  a.toList.mapM (fun p => do
+    let q ← getArr? p
+    if q.size != 2 then none else
+    let n ← getStr? q[0]!
+    let v ← getInt? q[1]!
+    pure (n, v))
+
+def handle (req : Json) : Json :=
+  match (field? req "op").bind getStr? with
+  | some "eval" =>
+    match parseSpec req with
+    | none => err "malformed"
+    | some s =>
+      if !specWF s then err "not-wellformed" else
+      match evalAll leS s with
+      | .error e => errJson e
+      | .ok o =>
+        let comps := (s.comps.zip o.comps).map (fun (c, co) =>
+          Json.mkObj [("attrs", valsOf co.attrs (c.attrs.map (·.name))),
+                      ("own", valsOf co.own (exprNames c.fields))])
+        Json.mkObj [("ok", Json.mkObj [
+          ("spec", valsOf o.spec (s.specVars.map (·.name))),
+          ("arch", valsOf o.arch (s.archVars.map (·.name))),
+          ("comps", Json.arr comps.toArray)])]
+  | some "judge" =>
+    match parseSpec req, field? req "vals" with
+    | some s, some vals =>
+      if !specWF s then err "not-wellformed" else
+      match (field? vals "spec").bind parseVals, (field? vals "arch").bind parseVals,
+            (field? vals "comps").bind getArr? with
+      | some vs, some va, some vc =>
+        let cvals := vc.toList.mapM (fun j => do
+          let a ← (field? j "attrs").bind parseVals
+          let o ← (field? j "own").bind parseVals
+          pure (a, o))
+        match cvals with
+        | none => err "malformed"
+        | some cvals =>
+          if cvals.length != s.comps.length then err "malformed" else
+          let t1 : Table N := vs
+          let t2 : Table N := va ++ t1
+          let bs := (s.comps.zip cvals).map (fun (c, (a, o)) =>
+            let t3 : Table N := a ++ t2
+            let t4 : Table N := o ++ t3
+            Json.arr #[Json.bool (semHolds t2.get (defFields c.attrs) t3.get),
+                       Json.bool (semHolds t3.get c.fields t4.get)])
+          Json.mkObj [("spec", Json.bool (semHolds (fun _ => none) (defFields s.specVars) t1.get)),
+                      ("arch", Json.bool (semHolds t1.get (defFields s.archVars) t2.get)),
+                      ("comps", Json.arr bs.toArray)]
+      | _, _, _ => err "malformed"
+    | _, _ => err "malformed"
+  | some "order" =>
+    match (field? req "pre").bind strList?, (field? req "fields").bind parseFields with
+    | some pre, some fields =>
+      if !distinct (fields.map (·.name)) then err "not-wellformed" else
+      match order pre fields with
+      | .ok out => Json.mkObj [("ok", ofStrList out)]
+      | .error stuck => Json.mkObj [("error", ofStrList stuck)]
+    | _, _ => err "malformed"
+  | some "validorder" =>
+    match (field? req "pre").bind strList?, (field? req "fields").bind parseFields, (field? req "out").bind strList? with
+    | some pre, some fields, some out =>
+      if !distinct (fields.map (·.name)) then err "not-wellformed" else
+      let cyc := match order pre fields with
+        | .ok _ => false
+        | .error _ => true
+      Json.mkObj [("valid", Json.bool (validOrder pre fields out)), ("cyclic", Json.bool cyc)]
+    | _, _, _ => err "malformed"
+  | _ => err "bad-op"
 
 end AFV.Driver.C21
